@@ -26,9 +26,9 @@ META = {
                   'and each real state is re-judged by TLC.',
     'level_note': 'Controller side only, one partition; 4 fictitious replicas + 1 non-replica id; shrink/expand name '
                   'replicas other than the leader named in the request (the only in-tree sender does). Requests are '
-                  'atomic except ReportLeader, whose two critical sections (pair check / witness registration + election) '
-                  'are separate steps with up to 2-3 reports parked in between (gate hook); other overlaps are not '
-                  'scheduled. The expiry timer is real (120 ms); the driver proves by the clock that no step other than '
+                  'atomic except that ReportLeader, ShrinkISR and ExpandISR are each split at the gate hook between their '
+                  'pair check and their effect (witness registration + election / Raft proposal), with up to 2-3 requests '
+                  'parked in between; other overlaps are not scheduled. The expiry timer is real (120 ms); the driver proves by the clock that no step other than '
                   'Expire can have seen a spontaneous expiry, else the behaviour is re-executed. Bounds: quick 8 steps '
                   'exhaustive model (6 with overlapping reports) / 3 steps replayed transition cover / 10 steps '
                   'simulated; thorough 12 / 4 / 14.',
